@@ -70,7 +70,10 @@ class HeapView:
 
 
 class Case:
-    def __init__(self, name, kind="return", exc=None, when=None, post=None, restype=None, result=None):
+    def __init__(self, name, kind="return", exc=None, when=None, post=None, restype=None, result=None, post_assume=None):
+        # post_assume: the same fact generalised over the free index constants of `post` (sound: the body is
+        # verified for arbitrary values of those constants); used at call sites where a quantified hypothesis helps
+        self.post_assume = post_assume
         self.name, self.kind, self.exc = name, kind, exc
         self.when = when or (lambda a, h: z3.BoolVal(True))
         self.post = post or (lambda a, h, h2, res: [])
@@ -80,7 +83,8 @@ class Case:
 
 class Contract:
     def __init__(self, target, params, requires=None, modifies=None, cases=None, props=(), trusted=False,
-                 defaults=None, note="", selfcls=None, allocates=False, ghost_update=None, time=None, probes=None):
+                 defaults=None, note="", selfcls=None, allocates=False, ghost_update=None, time=None, probes=None, linearize_at_lock=False):
+        self.linearize_at_lock = linearize_at_lock  # pre-state of the post = state at the first monitor-lock acquisition
         self.probes = probes  # (a, h) -> {name: z3 term}: values wanted in counter-models
         self.target = target
         self.params: dict[str, Ty] = dict(params)
@@ -113,6 +117,21 @@ class LoopSpec:
         self.props = tuple(props)
 
 
+class Monitor:
+    """Monitor invariant of one lock: holds whenever the lock is free.
+
+    On acquisition the protected fields of the owner are havocked (any other thread may have run) and the
+    invariant is assumed; at every release it is an obligation (mon-pres).  Writes to a protected field
+    require the lock to be held (lock obligations)."""
+
+    def __init__(self, cls, lockfield, protected, invariant, props=(), invariant_assume=None):
+        self.cls, self.lockfield, self.protected = cls, lockfield, tuple(protected)
+        self.invariant = invariant  # (h, owner_ref) -> [(label, z3 Bool)]   proved at every release
+        # the same facts generalised over their free index constants; only ever assumed (at acquisition)
+        self.invariant_assume = invariant_assume or invariant
+        self.props = tuple(props)
+
+
 class World:
     """Everything the executor resolves names against."""
 
@@ -126,9 +145,32 @@ class World:
         self.call_hooks: dict[tuple[str, str], object] = {}  # (cls, meth) -> handler
         self.axiom_providers: list = []  # callables(formula terms) -> extra axioms
         self.inline_ok: set[str] = set()
+        self.variants: dict[str, list[Contract]] = {}
+        self.monitors: dict[tuple[str, str], Monitor] = {}
+
+    def add_monitor(self, m: "Monitor"):
+        self.monitors[(m.cls, m.lockfield)] = m
+        return m
+
+    def monitor_guarding(self, schema_cls, field):
+        """(monitor) protecting `field` of class schema_cls, if any."""
+        for (cls, lf), m in self.monitors.items():
+            if field in m.protected and cls in self.schema.mro(schema_cls):
+                return m
+        return None
+
         self.assumptions: list[str] = []
 
-    def add(self, c: Contract):
+    def add(self, c: Contract, variant: str | None = None):
+        """variant: one of several contracts of the same function for different argument types
+        (key: int | str | Gateway); each is verified on its own, call sites take the first that fits."""
+        if variant is not None:
+            key = f"{c.target}#{variant}"
+            self.contracts[key] = c
+            self.variants.setdefault(c.target, []).append(c)
+            if c.target not in self.contracts:
+                self.contracts[c.target] = c
+            return c
         if c.target in self.contracts:
             raise ValueError(f"duplicate contract {c.target}")
         self.contracts[c.target] = c
